@@ -1,0 +1,186 @@
+//! Verification hooks, compiled only with the `verif-hooks` cargo feature.
+//!
+//! Nothing here is part of the supported API. The hooks are purely additive:
+//! a per-thread step counter with an optional fuel limit (so an external
+//! harness can cut a runaway search deterministically), a per-thread
+//! callback invoked at every step (used as a scheduling point by a
+//! controlled scheduler), a table of which instruction kinds were executed
+//! in which direction, and thin read-only wrappers over the case folding
+//! helpers so the whole code space can be swept directly.
+
+use crate::insn::Insn;
+use std::cell::Cell;
+
+/// Number of distinct instruction kinds reported by `insn_kind`, plus one
+/// slot for "backtrack pop" and one for "pikevm state step".
+pub const KINDS: usize = 32;
+pub const KIND_BACKTRACK_POP: usize = 30;
+
+/// Panic payload used when the fuel is exhausted.
+#[derive(Debug)]
+pub struct FuelExhausted;
+
+thread_local! {
+    static STEPS: Cell<u64> = const { Cell::new(0) };
+    static FUEL: Cell<u64> = const { Cell::new(u64::MAX) };
+    static MAX_BTS: Cell<usize> = const { Cell::new(0) };
+    static CALLBACK: Cell<Option<fn()>> = const { Cell::new(None) };
+    static KIND_TABLE: Cell<[[u64; 2]; KINDS]> = const { Cell::new([[0; 2]; KINDS]) };
+    static TRACK_KINDS: Cell<bool> = const { Cell::new(false) };
+}
+
+/// Names for the instruction kinds, indexed like the kind table.
+pub const KIND_NAMES: [&str; KINDS] = [
+    "Goal",
+    "Char",
+    "StartOfLine",
+    "EndOfLine",
+    "MatchAny",
+    "MatchAnyExceptLineTerminator",
+    "EnterLoop",
+    "LoopAgain",
+    "Loop1CharBody",
+    "Jump",
+    "Alt",
+    "BeginCaptureGroup",
+    "EndCaptureGroup",
+    "ResetCaptureGroup",
+    "BackRef",
+    "Bracket",
+    "AsciiBracket",
+    "Lookahead",
+    "Lookbehind",
+    "WordBoundary",
+    "WordBoundaryUnicodeICase",
+    "CharSet",
+    "ByteSet",
+    "ByteSeq",
+    "JustFail",
+    "",
+    "",
+    "",
+    "",
+    "",
+    "BacktrackPop",
+    "",
+];
+
+pub(crate) fn insn_kind(insn: &Insn) -> usize {
+    match insn {
+        Insn::Goal => 0,
+        Insn::Char(..) => 1,
+        Insn::StartOfLine { .. } => 2,
+        Insn::EndOfLine { .. } => 3,
+        Insn::MatchAny => 4,
+        Insn::MatchAnyExceptLineTerminator => 5,
+        Insn::EnterLoop(..) => 6,
+        Insn::LoopAgain { .. } => 7,
+        Insn::Loop1CharBody { .. } => 8,
+        Insn::Jump { .. } => 9,
+        Insn::Alt { .. } => 10,
+        Insn::BeginCaptureGroup(..) => 11,
+        Insn::EndCaptureGroup(..) => 12,
+        Insn::ResetCaptureGroup(..) => 13,
+        Insn::BackRef { .. } => 14,
+        Insn::Bracket(..) => 15,
+        Insn::AsciiBracket(..) => 16,
+        Insn::Lookahead { .. } => 17,
+        Insn::Lookbehind { .. } => 18,
+        Insn::WordBoundary { .. } => 19,
+        Insn::WordBoundaryUnicodeICase { .. } => 20,
+        Insn::CharSet(..) => 21,
+        Insn::ByteSet2(..) | Insn::ByteSet3(..) | Insn::ByteSet4(..) => 22,
+        Insn::JustFail => 24,
+        _ => 23, // ByteSeq1..=ByteSeq16
+    }
+}
+
+/// Called once per interpreted instruction / backtrack pop / PikeVM state step.
+#[inline]
+pub(crate) fn step(kind: usize, forward: bool, bts_len: usize) {
+    STEPS.with(|s| s.set(s.get() + 1));
+    MAX_BTS.with(|m| {
+        if bts_len > m.get() {
+            m.set(bts_len)
+        }
+    });
+    if TRACK_KINDS.with(|t| t.get()) {
+        KIND_TABLE.with(|t| {
+            let mut tab = t.get();
+            tab[kind % KINDS][forward as usize] += 1;
+            t.set(tab);
+        });
+    }
+    if let Some(cb) = CALLBACK.with(|c| c.get()) {
+        cb();
+    }
+    let fuel = FUEL.with(|f| f.get());
+    if fuel != u64::MAX {
+        if fuel == 0 {
+            std::panic::panic_any(FuelExhausted);
+        }
+        FUEL.with(|f| f.set(fuel - 1));
+    }
+}
+
+/// Reset the step counter and the backtrack high-water mark, and set the fuel
+/// (`u64::MAX` means unlimited).
+pub fn reset(fuel: u64) {
+    STEPS.with(|s| s.set(0));
+    MAX_BTS.with(|m| m.set(0));
+    FUEL.with(|f| f.set(fuel));
+}
+
+/// Steps executed on this thread since the last `reset`.
+pub fn steps() -> u64 {
+    STEPS.with(|s| s.get())
+}
+
+/// Largest backtrack stack / state stack length seen since the last `reset`.
+pub fn max_bts() -> usize {
+    MAX_BTS.with(|m| m.get())
+}
+
+/// Install (or remove) the per-step callback for this thread.
+pub fn set_callback(cb: Option<fn()>) {
+    CALLBACK.with(|c| c.set(cb));
+}
+
+/// Enable or disable the instruction kind x direction table for this thread.
+pub fn track_kinds(on: bool) {
+    TRACK_KINDS.with(|t| t.set(on));
+}
+
+/// Read and clear the instruction kind x direction table of this thread.
+/// Index `[kind][1]` counts forward executions, `[kind][0]` backward ones.
+pub fn take_kind_table() -> [[u64; 2]; KINDS] {
+    KIND_TABLE.with(|t| t.replace([[0; 2]; KINDS]))
+}
+
+/// `Canonicalize` as implemented by the engine.
+pub fn fold_code_point(c: u32, unicode: bool) -> u32 {
+    crate::unicode::fold_code_point(c, unicode)
+}
+
+/// All code points with the same simple case folding as `c`.
+pub fn unfold_char(c: u32) -> Vec<u32> {
+    crate::unicode::unfold_char(c)
+}
+
+/// All code points with the same legacy upper-casing as `c`.
+pub fn unfold_uppercase_char(c: u32) -> Vec<u32> {
+    crate::unicode::unfold_uppercase_char(c)
+}
+
+/// Closure of a set of inclusive code point intervals under simple case folding.
+pub fn icase_closure(intervals: &[(u32, u32)]) -> Vec<(u32, u32)> {
+    let mut cps = crate::codepointset::CodePointSet::new();
+    for &(first, last) in intervals {
+        cps.add(crate::codepointset::Interval { first, last });
+    }
+    crate::unicode::add_icase_code_points(cps)
+        .intervals()
+        .iter()
+        .map(|iv| (iv.first, iv.last))
+        .collect()
+}
